@@ -5,7 +5,7 @@ from rules import anchors, common
 
 CLAIMED = True
 TECHNIQUE = "static analysis over type-checked MIR: constructor/visibility/mutator inventory of Config, edge-conditioned retention and error pushes in build_lossy, strict/lossy result table, rejection-edge table of check_logger_name with separator constants, panic-site inventory of the install/routing cone (+ compile-fail privacy witnesses in the thorough tier)"
-LEVEL_TEXT = """Static, all-paths decision of: (V7) every getter of the configuration value types returns the field of its name unchanged, every builder setter stores its argument in the field of its name and touches no other, every build() fills each field from the same-named builder field or parameter, unpack() returns the fields in order (30 functions, floor); (V1) the only Config aggregate is in ConfigBuilder::build_lossy, Config/Root/Logger/Appender fields are private and no public function hands out a mutable path to the name lists (root_mut -> &mut Root, whose only public mutator writes the level); (V2) retention filters: an appender is kept only on the true edge of names.insert(name), a root/logger reference only on the true edge of names.contains(ref) against that same set, a logger only if its name was newly inserted AND check_logger_name returned Ok, kept lists are built by push in iteration order; (V3) build returns Ok(config) iff the error list is empty, every filter's failing edge pushes an error carrying the offending item's own name and no error is pushed on a passing edge; (V4) no un-discharged panic site in the install/routing cone (Logger::new*, SharedLogger::new*, init_config*, routing and delivery; cut at dyn Append/Filter) — the appender_map[..] lookups are justified by V1+V2; (V5) the separator constants of check_logger_name agree with the routing layer's; (V6) check_logger_name rejects exactly on: empty name, a colon streak above len(SEP), a non-colon after a streak that is >0 and != len(SEP), end of input inside a streak. The exact language of names and completeness of error reporting for every input are not decided. (V9) build_lossy stores to no field of a kept item except the filtered appenders lists; (V10) the install sorts by a total order (C01.R2). (V2/V3, cont.) rejected items set aside in a staging vector and reported by one unconditional loop afterwards (the `partition` + `extend` form) are read as the errors they stand for, at the push that sets them aside."""
+LEVEL_TEXT = """Static, all-paths decision of: (V7) every getter of the configuration value types returns the field of its name unchanged, every builder setter stores its argument in the field of its name and touches no other, every build() fills each field from the same-named builder field or parameter, unpack() returns the fields in order (30 functions, floor); (V1) the only Config aggregate is in ConfigBuilder::build_lossy, Config/Root/Logger/Appender fields are private and no public function hands out a mutable path to the name lists (root_mut -> &mut Root, whose only public mutator writes the level); (V2) retention filters: an appender is kept only on the true edge of names.insert(name), a root/logger reference only on the true edge of names.contains(ref) against that same set, a logger only if its name was newly inserted AND check_logger_name returned Ok, kept lists are built by push in iteration order; (V3) build returns Ok(config) iff the error list is empty, every filter's failing edge pushes an error carrying the offending item's own name and no error is pushed on a passing edge; (V4) no un-discharged panic site in the install/routing cone (Logger::new*, SharedLogger::new*, init_config*, routing and delivery; cut at dyn Append/Filter) — the appender_map[..] lookups are justified by V1+V2; (V5) the separator constants of check_logger_name agree with the routing layer's; (V6) check_logger_name rejects exactly on: empty name, a colon streak above len(SEP), a non-colon after a streak that is >0 and != len(SEP), end of input inside a streak. The exact language of names and completeness of error reporting for every input are not decided. (V9) build_lossy stores to no field of a kept item except the filtered appenders lists; (V10) the install sorts by a total order (C01.R2). (V2/V3, cont.) rejected items set aside in a staging vector and reported by one unconditional loop afterwards (the `partition` + `extend` form) are read as the errors they stand for, at the push that sets them aside. (V9, cont.) what is pushed onto the kept lists is the declared item (or a literal/builder rebuild carrying every one of its fields)."""
 LEVEL_NOTE = "Trusted: rustc MIR/callee resolution; HashSet/Vec semantics; Rust privacy (witnessed by compile-fail doctests in the thorough tier)."
 EXPLANATION = """Decided: V1 sole constructor/private fields/no mutable path, V2 retention filters, V3 strictness and error payloads, V4 install cannot panic, V5 separator agreement, V6 rejection edges of check_logger_name. Undecided: the exact accepted name language for every string; that every offending item is reported (a logger rejected for its name does not get its dangling references reported)."""
 DECIDED = ["V1", "V2", "V3", "V4", "V5", "V6", "V7 accessors/setters/build of Config, Root, Logger, Appender and their builders are faithful"]
@@ -185,6 +185,29 @@ def rule_kept_as_given(ctx, p, cfg, rid="V9"):
         r.ok("stores-inventoried", fn=f, detail="field stores into Root/Logger/Appender values in build_lossy: %d" % stores)
         r.require(not bad, "no-field-of-a-kept-item-rewritten", fn=f, detail="field stores into Root/Logger/Appender in build_lossy: %d, all to the filtered `appenders` lists" % stores,
                   fail_detail="build_lossy rewrites %s of an item it keeps: the configuration installed is not the one that was built (a name that no longer matches its targets, a sink behind another definition's filters)" % sorted(set(bad)))
+        # ... and what goes onto the kept lists is the declared item itself (with its list filtered), not a new one put together from
+        # some of its parts: a rebuild through the builder starts from the builder's defaults for whatever it does not copy
+        FIELDS = {LOGGER: ("name", "level", "additive"), APPENDER: ("name", "appender", "filters")}
+        for c in f.calls(PUSH):
+            ity = c.t["arg_tys"][1] if len(c.t.get("arg_tys", [])) > 1 else ""
+            if ity not in FIELDS:
+                continue
+            v = deep_strip(c.arg(1))
+            alts = v[1] if v[0] == "phi" else (v,)
+            for a in alts:
+                a = deep_strip(a)
+                if a[0] == "partial" or (a[0] == "field" and a[2] == "0" and a[1][0] == "as"):
+                    continue        # the iteration's item, or a store into one of its fields (inventoried above)
+                okb = False
+                if a[0] == "agg" and a[1] == ity:
+                    fd = {n: deep_strip(x) for n, x in a[3]}
+                    okb = all(fd.get(n, ("?",))[0] == "field" and fd[n][2] == n for n in FIELDS[ity])
+                elif a[0] == "call" and a[1].endswith("Builder::build"):
+                    have = {x[1].rsplit("::", 1)[-1] for x in walk(a) if x[0] == "call"}
+                    args_ = [deep_strip(x) for x in a[2][1:]]
+                    okb = all(n in have or any(y[0] == "field" and y[2] == n for y in args_) for n in FIELDS[ity])
+                r.require(okb, "kept-item-is-the-declared-one:%s" % common.role(c), fn=f, site=c.at, detail="pushed %s" % show(a, 4),
+                          fail_detail="the %s put on the kept list is rebuilt (%s) without all of %s of the declared one: what is left out falls back to a default" % (ity.rsplit("::", 1)[-1], show(a, 4), "/".join(FIELDS[ity])))
         muts = [c for c in f.calls() if any(str(t).startswith(("&mut " + ROOT, "&mut " + LOGGER, "&mut " + APPENDER)) for t in (c.t.get("arg_tys") or []))]
         r.require(not muts, "no-kept-item-handed-out-mutably", fn=f, site=(muts[0].at if muts else None), detail="no call takes a Root/Logger/Appender by `&mut`",
                   fail_detail="build_lossy hands an item it keeps to %s by `&mut`" % (muts[0].callee if muts else ""))
